@@ -75,3 +75,33 @@ def install(ctx):
     Chop.calculate = icontract.ensure(calculate_wellformed, error=calculate_error)(Chop.calculate)
     icontract.invariant(grading_rows_wellformed, error=grading_error)(Grading)
     _INSTALLED[0] = True
+
+
+# ---- VertexList.add --------------------------------------------------------------------------------
+def vertex_add_post(self, point, result):
+    _count("VertexList.add")
+    import numpy as np
+
+    if float(np.linalg.norm(np.asarray(result.position) - np.asarray(point.position))) > 1e-7:
+        return False
+    return all(v.index == i for i, v in enumerate(self.vertices)) and self.vertices[result.index] is result
+
+
+def vertex_add_error(self, point, result):
+    return ContractBroken(
+        f"VertexList.add({point.position}) returned vertex {result.index} at {result.position}; "
+        f"indexes {[v.index for v in self.vertices][:12]}"
+    )
+
+
+_VL = [False]
+
+
+def install_vertexlist(ctx):
+    _CTX[0] = ctx
+    if _VL[0]:
+        return
+    from classy_blocks.lists.vertex_list import VertexList
+
+    VertexList.add = icontract.ensure(vertex_add_post, error=vertex_add_error)(VertexList.add)
+    _VL[0] = True
